@@ -224,7 +224,9 @@ def flags(repo: Repo) -> List[Ob]:
                 if not cands:
                     continue
                 n_calls += 1
-                cname = "|".join(sorted(c.qualname for c in cands)) if len(cands) <= 3 else f"*.{mc[1]}"
+                # a receiver that may be of several classes is named by the method alone: which subset of the state classes the typing can
+                # narrow it to depends on how the loop over the members is spelled, not on what is called
+                cname = cands[0].qualname if len(cands) == 1 else f"*.{mc[1]}"
                 ordinal[cname] = ordinal.get(cname, 0) + 1
                 if not seen[node]:
                     obs.append(note("FLAGS", fi, f"{cname}#{ordinal[cname]}", props, x, "call is in a branch the index-kind domain proves dead"))
